@@ -1179,6 +1179,77 @@ theorem gars_cell_contains (lat lon : F64) (h1 : F64.gt (F64.abs lat) MathF.qd =
     · rw [lt_div_iff₀ (by norm_num)]; linarith
 
 
+/-- **the decoded cell of the exact code contains the point** (Georef, minutes and finer, `2 ≤ prec ≤ 11`):
+the decoded numerators over `W = 6·10^(prec−1)` cells per degree bracket the prepared position. -/
+theorem georef_cell_contains (lat lon : F64) (h1 : F64.gt (F64.abs lat) MathF.qd = false)
+    (h2 : (lat.isNaN || lon.isNaN) = false) (hf : lon.isFinite = true) (p : Nat) (hp2 : 2 ≤ p) (hp11 : p ≤ 11) :
+    ∃ X Y : ℤ, Georef.scaleExact lat lon = .ok (some (X, Y)) ∧
+      ∃ d : Georef.Dec, Georef.decodeInt (toBytes (Georef.encodeInt X Y p)) false = .ok d ∧
+        d.prec = p ∧ d.unit = 15 * georefW p ∧
+        (d.lon1 : ℚ) / (georefW p : ℚ) ≤ (prepLon lon).val ∧ (prepLon lon).val < ((d.lon1 : ℚ) + 1) / (georefW p : ℚ) ∧
+        (d.lat1 : ℚ) / (georefW p : ℚ) ≤ (prepLat lat).val ∧ (prepLat lat).val < ((d.lat1 : ℚ) + 1) / (georefW p : ℚ) := by
+  obtain ⟨X, Y, X', Y', hE, _, hX, _, hY, hY0, hY1⟩ := georef_scale_contains lat lon h1 h2
+  obtain ⟨⟨⟨cx1, cx2⟩, _⟩, hX0, hX1⟩ := hX hf
+  obtain ⟨⟨cy1, cy2⟩, _⟩ := hY
+  have hm : (F64.ofInt Georef.m).val = 60000000000 := by
+    show (F64.fin false 60000000000 0).val = 60000000000
+    rw [F64.val_fin]; simp
+  rw [hm] at cx1 cx2 cy1 cy2
+  have e1 : ((X + georef_lonorig * Georef.m : ℤ) : ℚ) = (X:ℚ) - 180 * 60000000000 := by
+    show ((X + (-180) * 60000000000 : ℤ) : ℚ) = _
+    push_cast; ring
+  have e2 : ((Y + georef_latorig * Georef.m : ℤ) : ℚ) = (Y:ℚ) - 90 * 60000000000 := by
+    show ((Y + (-90) * 60000000000 : ℤ) : ℚ) = _
+    push_cast; ring
+  rw [e1] at cx1 cx2
+  rw [e2] at cy1 cy2
+  refine ⟨X, Y, hE, _, georef_decode_encode_long X Y ⟨hX0, hX1⟩ ⟨hY0, hY1⟩ p hp2 hp11 false, rfl, ?_⟩
+  simp only [Bool.false_eq_true, if_false]
+  refine ⟨trivial, ?_⟩
+  have hW : georefW p = 6 * 10 ^ (p - 1) := by unfold georefW; rw [if_neg (by omega)]
+  have hWD : (6 * 10 ^ (p - 1) : ℤ) * 10 ^ (11 - p) = 60000000000 := by
+    have : (p - 1) + (11 - p) = 10 := by omega
+    rw [mul_assoc, ← pow_add, this]; norm_num
+  set W : ℤ := 6 * 10 ^ (p - 1) with hWd
+  set D : ℤ := 10 ^ (11 - p) with hDd
+  have hWpos : (0:ℤ) < W := by positivity
+  have hDpos : (0:ℤ) < D := by positivity
+  have hWq : (0:ℚ) < (W:ℚ) := by exact_mod_cast hWpos
+  have hDq : (0:ℚ) < (D:ℚ) := by exact_mod_cast hDpos
+  have hWDq : (W:ℚ) * (D:ℚ) = 60000000000 := by exact_mod_cast hWD
+  rw [hW]
+  have a1 : X / D * D ≤ X := Int.ediv_mul_le X (ne_of_gt hDpos)
+  have a2 : X < (X / D + 1) * D := Int.lt_ediv_add_one_mul_self X hDpos
+  have b1 : Y / D * D ≤ Y := Int.ediv_mul_le Y (ne_of_gt hDpos)
+  have b2 : Y < (Y / D + 1) * D := Int.lt_ediv_add_one_mul_self Y hDpos
+  have a1q : ((X / D : ℤ) : ℚ) * D ≤ X := by exact_mod_cast a1
+  have a2q : (X:ℚ) + 1 ≤ (((X / D : ℤ) : ℚ) + 1) * D := by exact_mod_cast (by omega : X + 1 ≤ (X / D + 1) * D)
+  have b1q : ((Y / D : ℤ) : ℚ) * D ≤ Y := by exact_mod_cast b1
+  have b2q : (Y:ℚ) + 1 ≤ (((Y / D : ℤ) : ℚ) + 1) * D := by exact_mod_cast (by omega : Y + 1 ≤ (Y / D + 1) * D)
+  simp only [georef_lonorig, georef_latorig]
+  push_cast
+  have kx : ((prepLon lon).val * W + 180 * W) * D = (prepLon lon).val * 60000000000 + 180 * 60000000000 := by
+    rw [← hWDq]; ring
+  have ky : ((prepLat lat).val * W + 90 * W) * D = (prepLat lat).val * 60000000000 + 90 * 60000000000 := by
+    rw [← hWDq]; ring
+  refine ⟨?_, ?_, ?_, ?_⟩
+  · rw [div_le_iff₀ hWq]
+    have : (((X / D : ℤ) : ℚ)) * D ≤ ((prepLon lon).val * W + 180 * W) * D := by rw [kx]; linarith
+    have := le_of_mul_le_mul_right this hDq
+    linarith
+  · rw [lt_div_iff₀ hWq]
+    have : ((prepLon lon).val * W + 180 * W) * D < ((((X / D : ℤ) : ℚ)) + 1) * D := by rw [kx]; linarith
+    have := lt_of_mul_lt_mul_right this hDq.le
+    linarith
+  · rw [div_le_iff₀ hWq]
+    have : (((Y / D : ℤ) : ℚ)) * D ≤ ((prepLat lat).val * W + 90 * W) * D := by rw [ky]; linarith
+    have := le_of_mul_le_mul_right this hDq
+    linarith
+  · rw [lt_div_iff₀ hWq]
+    have : ((prepLat lat).val * W + 90 * W) * D < ((((Y / D : ℤ) : ℚ)) + 1) * D := by rw [ky]; linarith
+    have := lt_of_mul_lt_mul_right this hDq.le
+    linarith
+
 section GeohashCell
 open F64
 
